@@ -577,14 +577,14 @@ class PGFile:
                 )
             if isinstance(terminal.recognizer, StringRecognizer):
                 rec = terminal.recognizer
-                if rec.value in terminals_by_str_rec:
+                if rec.value_cmp in terminals_by_str_rec:
                     raise GrammarError(
                         location=terminal.location,
                         message=f'Terminals "{terminal.name}" and '
-                        f'"{terminals_by_str_rec[rec.value].name}" match '
+                        f'"{terminals_by_str_rec[rec.value_cmp].name}" match '
                         "the same string.",
                     )
-                terminals_by_str_rec[rec.value] = terminal
+                terminals_by_str_rec[rec.value_cmp] = terminal
             terminals_by_name[terminal.name] = terminal
 
         self.terminals = terminals_by_name
